@@ -3,7 +3,9 @@
    structural clauses; exact twin over Q (Model/AttributesQ.v) for the clauses the property
    states "up to float rounding". *)
 From Coq Require Import ZArith QArith List Bool Floats.
-From V Require Import F64 F32 Attributes AttributesQ AttributesProofs.
+From Coq Require Import Reals.
+From Flocq Require Import Core.
+From V Require Import F64 F32 Attributes AttributesQ AttributesProofs FExact FInt FOps RangeProofs.
 Import ListNotations.
 Open Scope Q_scope.
 
@@ -74,3 +76,22 @@ Example C17_example_float :
                       false false None None None None 1.5%float in
   r_ar (build b) = ((1200 - 400) / 150 + 5)%float /\ hw_great (r_hw (build b)) = (32 / 1.5)%float.
 Proof. split; vm_compute; reflexivity. Qed.
+
+(* hit windows shrink monotonically as OD / AR grow - proved ON THE BINARY64 VALUES the code computes
+   (Flocq: every operation of difficulty_range is the rounding of the exact result, rounding is monotone,
+   the table entries are integers), with no real-number twin in between: for every window table of the
+   crate (all six are ordered min >= avg >= max), any two finite difficulty values d1 <= d2 up to 2^40
+   and every finite clock rate of at least 2^-7, the window for d2 divided by the clock rate is not
+   larger than the one for d1 *)
+Theorem C17_window_antitone_float : forall w d1 d2 clock, ordered_window w ->
+  fin d1 -> fin d2 -> (Rabs (RV d1) <= bpow radix2 40)%R -> (Rabs (RV d2) <= bpow radix2 40)%R -> (RV d1 <= RV d2)%R ->
+  fin clock -> (bpow radix2 (-7) <= RV clock)%R ->
+  fin (difficulty_range d1 w / clock)%float /\ fin (difficulty_range d2 w / clock)%float
+  /\ (RV (difficulty_range d2 w / clock)%float <= RV (difficulty_range d1 w / clock)%float)%R.
+Proof. exact window_antitone. Qed.
+Print Assumptions C17_window_antitone_float.
+
+Theorem C17_window_tables_ordered : ordered_window OSU_GREAT /\ ordered_window OSU_OK /\ ordered_window OSU_MEH
+  /\ ordered_window TAIKO_GREAT /\ ordered_window TAIKO_OK /\ ordered_window AR_WINDOWS.
+Proof. exact tables_ordered. Qed.
+Print Assumptions C17_window_tables_ordered.
